@@ -77,7 +77,14 @@ func streamEngine(t *testing.T, o *Out, p EngProfile) {
 		}
 		impl := fmt.Sprintf("res=%s\tcalls=%d\topl=%d", res, calls, b2i(c.ViaOPL))
 		if withConc {
+			// the real concurrent checkgroup, several times: the decision must not depend on
+			// goroutine scheduling
 			cres, _ := env.runCheck(c, false)
+			for k := 0; k < 4 && cres == res; k++ {
+				if again, _ := env.runCheck(c, false); again != cres {
+					cres = again
+				}
+			}
 			impl += "\tcres=" + cres
 		}
 		o.Emit("engine", fmt.Sprintf("%s%d", tag, id), c.Payload(), impl, engNontrivial(c, calls))
